@@ -543,6 +543,10 @@ func main() {
 		liveServerMain()
 		return
 	}
+	if os.Getenv("C05_CLIENT") != "" {
+		liveClientMain()
+		return
+	}
 	if vlib.IsBatchChild() {
 		vlib.LimitAddressSpace(12 << 30)
 		runtime.GOMAXPROCS(2)
@@ -642,6 +646,7 @@ func main() {
 			map[string]interface{}{"entry": c.entry, "mutation": c.kind, "what": c.what, "input_len": len(in), "input": hexClip(in), "exit": o.Exit, "stderr_tail": vlib.Tail(o.Stderr, 2500)})
 	})
 	livePhase(run, seed, thorough)
+	liveClientPhase(run)
 	adminPhase(run)
 	run.Finish()
 }
